@@ -19,9 +19,11 @@ BIN=$OUT/grsim
 mkdir -p $VERIF/build
 exec 9>$VERIF/build/.lock-$FLAVOUR
 flock 9
-if [ -x $BIN ]; then echo $BIN; exit 0; fi
-# drop older builds of this flavour (disk is limited)
-for d in $VERIF/build/*-$FLAVOUR; do [ -d "$d" ] && [ "$d" != "$OUT" ] && rm -rf "$d"; done
+if [ -x $BIN ]; then touch $OUT; echo $BIN; exit 0; fi
+# drop old builds of this flavour (disk is limited): keep the 8 most recently used, never one used in the last 30 minutes
+ls -1dt $VERIF/build/*-$FLAVOUR 2>/dev/null | tail -n +9 | while read d; do
+  if [ -d "$d" ] && [ -z "$(find "$d" -maxdepth 0 -mmin -30)" ]; then rm -rf "$d"; fi
+done
 mkdir -p $OUT
 pids=()
 fail=0
